@@ -21,9 +21,9 @@
 (*           goroutine closing that channel when all readers are done         *)
 (*   loop    kapacitorLoopback: deliver = WriteKapacitorPoint into wp         *)
 (*   udf     UDF node: forwards like pass (the round trip through the UDF     *)
-(*           process is an internal delay), but its stopF is stopUDF = Abort: *)
-(*           whatever it holds is dropped, it returns "node aborted" and      *)
-(*           aborts its parent edges (KNOWN FINDING udf-stop-aborts)          *)
+(*           process is an internal delay); in the original code its stopF    *)
+(*           was stopUDF = Abort: whatever it held was dropped, it returned   *)
+(*           "node aborted" and aborted its parent edges (UdfStopAborts)      *)
 (*                                                                            *)
 (* Stop = the real protocol.  StopTask/DeleteTask: take tm.mu, delFork (close *)
 (* the source edge), et.stop: for every node in topological order stopF then  *)
@@ -39,6 +39,7 @@
 (*   ReaderDone       multiConsumer readers select on a done channel          *)
 (*   AlertCloseOnErr  alert node closes its topic also when it failed         *)
 (*   HookNeedsTmLock  alert node start takes tm.mu (registerDeleteHook)       *)
+(*   UdfStopAborts    stopUDF aborts the UDF (original) / does nothing        *)
 EXTENDS Integers, Sequences, FiniteSets, TLC, Edge
 
 CONSTANTS
@@ -49,7 +50,7 @@ CONSTANTS
     StopKinds,       \* subset of {"task", "close"}
     AllowFail,       \* BOOLEAN: one node may return an error at any time
     MaxN, MaxE,      \* array sizes (>= nodes / edges of every topology)
-    InfluxStopF, ReaderDone, AlertCloseOnErr, HookNeedsTmLock
+    InfluxStopF, ReaderDone, AlertCloseOnErr, HookNeedsTmLock, UdfStopAborts
 
 VARIABLES
     topo, kind,      \* chosen at Init, constant afterwards
@@ -399,7 +400,7 @@ UnchangedNodes == UNCHANGED <<pc, cur, fi, nerr, hq, rd, mclosed, udone, dropped
 
 \* first thing et.stop does for node i: stopF.  Only the original influxDBOut has one that matters here.
 StopFState(i) == CASE NK(i) = "influx" /\ InfluxStopF -> "fl1"
-                   [] NK(i) = "udf" -> "uab"
+                   [] NK(i) = "udf" /\ UdfStopAborts -> "uab"
                    [] OTHER -> "wait"
 
 \* StopTask: tm.mu.Lock (waits for a forkPoint in progress), delFork = close the source edge
